@@ -148,7 +148,9 @@ int vp_case(Choice& c, Report& rep) {
   // Known finding C20F3: with the speech-layer DTX in charge a stereo signal whose channels are in anti-phase (L = -R, silent mid channel) is
   // classed inactive - the side channel's activity is never consulted - and whole bursts are sent as 1-byte DTX packets.  The class (anti-phase
   // stereo input) is generated only when the finding is lifted (replay of corpus/C20/known/C20F3.case); hash-derived so the choice layout is unchanged.
+  bool antiphase = false;
   if (ch == 2 && (fnv1a(c.d, c.n) % 8) == 3 && !rep.exclude("C20F3")) {
+    antiphase = true;
     for (size_t i = 0; i < nsamp; i++) pcm[2 * i + 1] = -pcm[2 * i];
     rep.label("signal:anti-phase-stereo");
   }
@@ -270,7 +272,22 @@ int vp_case(Choice& c, Report& rep) {
           // "Renewed activity" must be unmistakable: the speech-layer VAD may class a quiet onset frame (observed: RMS 0.014..0.021 = 0.26..0.29 of the
           // loudest frame so far, 10 ms frames, speech-like input) as inactive and keep sending DTX for one more frame.  That is the detector's
           // judgement, not a frame of activity being dropped; the clause is asserted for frames at least half as loud as the loudest so far.
-          if (r >= 0.5 * loudest && r >= 0.02) {
+          // The detector may also class the "active" signal itself as inactive (seed 45: a steady 0.1 square wave at 12 kHz is adapted to as background
+          // noise by the speech-layer detector after 780 ms and sent as DTX although it never stopped): when the frame just before the gap was already a
+          // DTX packet and the input is stationary there is no renewed activity in the detector's sense, and nothing is asserted.
+          // Only for stationary input (constant-level tones / noise) that the detector first coded as active for at least 400 ms (twice the DTX
+          // hang-over) and then adapted to as background: that is its judgement.  For non-stationary (speech-like, sweeping, clicking) input, for a
+          // signal the detector never treated as active, and for anti-phase stereo (silent mid channel: known finding C20F3, where the detector never
+          // looks at the channel carrying the signal) DTX during the signal stays a failure of this clause.
+          const bool stationary_input = family != sig::SPEECHLIKE && family != sig::SWEEP && family != sig::CLICKS && !antiphase;
+          bool signal_already_in_dtx = false;
+          if (stationary_input && k >= 2 && a - segs[k - 1].frames - 1 >= 0 && plen[a - segs[k - 1].frames - 1] <= 2) {
+            const int pa = seg_start[k - 2];                       // start of the active segment before the gap
+            int first_dtx = pa; while (first_dtx < seg_start[k - 1] && plen[first_dtx] > 2) first_dtx++;
+            signal_already_in_dtx = (int64_t)(first_dtx - pa) * fs * 1000 >= 400ll * Fs;
+          }
+          if (signal_already_in_dtx) rep.label("resume-not-judged(detector classed the signal itself inactive)");
+          if (r >= 0.5 * loudest && r >= 0.02 && !signal_already_in_dtx) {
             rep.label("resume-checked");
             if (plen[a] <= 2) { char m[600]; snprintf(m, sizeof m, CFG); return rep.fail("c20:resume-frame-is-dtx", "frame %d, the first after a %d-frame gap (frame RMS %.4f, loudest so far %.4f), is %d bytes; %s", a, segs[k - 1].frames, r, loudest, plen[a], m); }
             if (a > 0 && plen[a - 1] <= 2) { rep.label("resume-from-dtx"); nontrivial = true; }
